@@ -67,6 +67,7 @@ def generate(st):
         'dict_output': sw.random() < 0.25,
         'output_is_input': sw.choice([True, True, True, False]),
         'col': sw.choice(['data', 'data', 'data', 'out']),
+        'on_as_list': sw.random() < 0.6,
     }
     pool = KEYPOOL_I if cfg['keys_int'] else KEYPOOL_S
 
@@ -284,7 +285,7 @@ def execute(trace, ctx=None):
     col = 'data' if dict_mode else cfg.get('col', 'data')      # name of the output column and of the keyword carrying previous output
     arm = []               # [n]: the n-th evaluation of f (counted over the whole run) raises
     f = _make_f(params, ledger, dict_mode, arm)
-    kwargs = {'on': list(on)}
+    kwargs = {'on': list(on) if (len(on) > 1 or cfg.get('on_as_list', True)) else on[0]}       # a single key may be given as a plain string
     if cfg.get('defaults') is not None:
         kwargs['defaults'] = dict(cfg['defaults'])
     if cfg.get('if_none'):
